@@ -218,6 +218,38 @@ pub fn judge(case: &Case, l: &mut Local) {
                         l.eval(&format!("date:{ty}"), "rejected", true, hash_str(&content) ^ hash_str(ty));
                         if v19 == Some(true) && v20 == Some(true) {
                             v(l, ty, "rejects-real-date", class, format!("{ty} rejects {digits:?}, a real calendar date in either century ({class})"), case);
+                        } else if v19 == Some(true) || v20 == Some(true) {
+                            // a real date in one century only: which century the text route means is not documented,
+                            // but the library must be able to read what it writes itself. Build the value over the
+                            // JSON route (ISO date of the century in which the digits are a date); if the library
+                            // holds that date and writes exactly these digits for it, rejecting them is a violation
+                            let cent = if v20 == Some(true) { "20" } else { "19" };
+                            let iso = format!("{cent}{}-{}-{}", &digits[0..2], &digits[2..4], &digits[4..6]);
+                            fn set_iso(j: &mut Value, iso: &str) -> bool {
+                                match j {
+                                    Value::String(s) => {
+                                        let b = s.as_bytes();
+                                        if b.len() == 10 && b[4] == b'-' && b[7] == b'-' {
+                                            *s = iso.to_string();
+                                            true
+                                        } else {
+                                            false
+                                        }
+                                    }
+                                    Value::Object(m) => m.values_mut().any(|x| set_iso(x, iso)),
+                                    Value::Array(a) => a.iter_mut().any(|x| set_iso(x, iso)),
+                                    _ => false,
+                                }
+                            }
+                            if let Ok(Ok(t)) = guard(|| (ops.parse)(&format!("{pre}240115{suf}")))
+                                && let Ok(mut j) = t.json()
+                                && set_iso(&mut j, &iso)
+                                && let Ok(Ok(held)) = guard(|| (ops.from_json)(&j))
+                                && let Ok(sw) = guard(|| held.to_swift())
+                                && sw.splitn(3, ':').nth(2).unwrap_or("").starts_with(&format!("{pre}{digits}"))
+                            {
+                                v(l, ty, "writes-a-date-it-cannot-read", class, format!("{ty}: the date {iso}, taken from JSON, is written as {digits}, which the same field rejects as text"), case);
+                            }
                         }
                     }
                 }
